@@ -221,6 +221,7 @@ type World struct {
 	muOwner    map[sync.Locker][2]int // poolMu / rootsMu address -> (instance, incarnation)
 	rootsTasks int                    // setroots tasks in flight
 	bulkDone   bool
+	timeMoves  int // commands that let simulated time pass
 	bulkCrashed bool
 	noYield    bool
 	admChecked int
@@ -435,4 +436,15 @@ func (w *World) yieldPoint() {
 	op := &core.Op{ID: w.sim.NewOpID(in.idx, in.inc, "yield", "close"), Inst: in.idx, Inc: in.inc, Kind: "yield", Key: "close", Payload: &pendingOp{}}
 	w.sim.Probe("yield.close")
 	w.sim.Park(op)
+}
+
+// stopping: some instance was cancelled in the middle of a round and its
+// sequencer has not returned yet; no simulated time may pass until it has.
+func (w *World) stopping() bool {
+	for _, in := range w.insts {
+		if in.stopping && in.state == stRunning && !in.dead {
+			return true
+		}
+	}
+	return false
 }
